@@ -215,6 +215,10 @@ class Program:
             digest.update(src.encode())
         else:
             self.setup = None
+        # renamed functions are given back the names the rules know them by (sa/renames.py; a normalisation, not a verdict)
+        from . import renames as _renames
+
+        self.renames_undone = _renames.recover(self.modules)
         if self.inline_from is not None:
             from .inline import inline_modules
 
